@@ -59,7 +59,7 @@ def ridgeSegment (spherical : Bool) (natAtMinDepth : P3 R) (check other : P2 R)
     else (s0 + P2.smul (c1 / c) v, v0 + (v1 - v0) * (c1 / c), sub0 + (sub1 - sub0) * (c1 / c))
   let (pb2, sp2, su2) :=
     if c2 ≤ 0 then (s0, v0, sub0)
-    else if c ≤ c2 then (s1, v1, v1)          -- as written: the alias end point takes the *spreading* velocity
+    else if c ≤ c2 then (s1, v1, sub1)        -- (was `v1`: upstream 'fix: far copy of the query took the spreading velocity as subducting velocity')
     else (s0 + P2.smul (c2 / c) v, v0 + (v1 - v0) * (c2 / c), sub0 + (sub1 - sub0) * (c2 / c))
   let dc := depthCoordinate spherical natAtMinDepth
   let cmp1 : P3 R := if spherical then ⟨dc, pb1.x, pb1.y⟩ else ⟨pb1.x, pb1.y, dc⟩
